@@ -2,6 +2,7 @@
 import ast
 import itertools
 
+from sa.callgraph import bind_args
 from sa.loader import AnalysisError, norm, walk_local
 from sa.cfg import cfg_of
 from sa.pathsum import summaries
@@ -46,7 +47,7 @@ def run(ctx):
                 users.append(f)
     ctx.check("C10.R1", "only _validate dispatches through VALIDATORS", [u.id for u in users] == [vf.id], vf.where(), f"VALIDATORS used by {[u.id for u in users]}", "a validator called outside _validate bypasses logical-type preparation and the raise-iff-False step")
     byname = [n for n in walk_local(vf.node) if isinstance(n, ast.If) and norm(n.test) == "record_type in named_schemas"]
-    ok = len(byname) == 1 and any(isinstance(c, ast.Call) and isinstance(c.func, ast.Name) and c.func.id == "_validate" and any(k.arg == "schema" and norm(k.value) == "named_schemas[record_type]" for k in c.keywords) for c in ast.walk(byname[0]))
+    ok = len(byname) == 1 and any(isinstance(c, ast.Call) and isinstance(c.func, ast.Name) and c.func.id == "_validate" and norm(bind_args(vf, c).get(vf.pos_params[1], ast.Constant(value=None))) == "named_schemas[record_type]" for c in ast.walk(byname[0]))
     ctx.check("C10.R1", "_validate: by-name reference validated against its definition", ok, vf.where(), "_validate: by-name arm", "a reference to a named type must be validated against named_schemas[name]")
     unk = [n for n in walk_local(vf.node) if isinstance(n, ast.Raise) and "UnknownType" in norm(n.exc)]
     ctx.check("C10.R1", "_validate: an unknown type name raises UnknownType", len(unk) == 1, vf.where(), "_validate: unknown type arm", "an unknown type must not validate silently")
